@@ -63,8 +63,13 @@ def _subset_in_order(draw, fields, min_size=1):
   return sel
 
 
+# input classes that can be excluded by construction (open known findings of C28; see checks/c28.py)
+ALL_EXCLUSIONS = ('static-acc', 'rk4-delay', 'ekinetic-stale', 'capsulebox-distmax', 'ccd-concentric')
+
+
 @st.composite
-def sensor_models(draw, max_bodies=5, max_sensors=10, min_sensors=3, history=True, model_kwargs=None):
+def sensor_models(draw, max_bodies=5, max_sensors=10, min_sensors=3, history=True, model_kwargs=None,
+                  exclude=('rk4-delay',)):
   kw = dict(max_bodies=max_bodies, sensors=False, sites=True, cameras=True, actuators=True, tendons=True, plane=True,
             equalities=True, opt_kwargs=dict(sleep=False))
   kw.update(model_kwargs or {})
@@ -171,6 +176,7 @@ def sensor_models(draw, max_bodies=5, max_sensors=10, min_sensors=3, history=Tru
   rk4 = 'integrator="RK4"' in xml
   info['excluded_rk4_delay'] = 0
   info['excluded_capsulebox_cutoff'] = 0
+  info['excluded_same_body_pairs'] = 0
   gtype = dict(re.findall(r'<geom name="([a-z0-9_]+)" type="([a-z]+)"', xml))
   energy_flag = 'energy="enable"' in xml
   info['excluded_ekinetic_energyflag'] = 0
@@ -217,7 +223,7 @@ def sensor_models(draw, max_bodies=5, max_sensors=10, min_sensors=3, history=Tru
       # force/torque need a site on a non-world body to be meaningful; the world site is still legal
       cand = bsites if bsites and draw(st.integers(0, 5)) else sites
       if el == 'accelerometer':
-        dyn = [x for x in cand if owner('site', x) not in static]
+        dyn = [x for x in cand if owner('site', x) not in static] if 'static-acc' in exclude else cand
         info['excluded_static_acc'] += len(cand) - len(dyn)
         if not dyn:
           el = 'gyro'
@@ -276,7 +282,7 @@ def sensor_models(draw, max_bodies=5, max_sensors=10, min_sensors=3, history=Tru
       el = draw(st.sampled_from(FRAME_POS if kind == 'framepos' else FRAME_VEL if kind == 'framevel' else FRAME_ACC))
       cand = fobjs
       if kind == 'frameacc':
-        dyn = [x for x in fobjs if owner(*x) not in static]
+        dyn = [x for x in fobjs if owner(*x) not in static] if 'static-acc' in exclude else fobjs
         info['excluded_static_acc'] += len(cand) - len(dyn)
         if not dyn:
           el = 'framelinvel'
@@ -295,7 +301,7 @@ def sensor_models(draw, max_bodies=5, max_sensors=10, min_sensors=3, history=Tru
       obj = 'body' if a['body'] != 'world' else 'worldbody'
     elif kind == 'global':
       el = draw(st.sampled_from(['clock', 'e_potential', 'e_kinetic']))
-      if el == 'e_kinetic' and energy_flag:
+      if el == 'e_kinetic' and energy_flag and 'ekinetic-stale' in exclude:
         # known finding C28:ekinetic-stale (e_kinetic is evaluated in the position stage with a stale lazy flag when
         # the energy flag is enabled): excluded by construction
         info['excluded_ekinetic_energyflag'] += 1
@@ -319,6 +325,12 @@ def sensor_models(draw, max_bodies=5, max_sensors=10, min_sensors=3, history=Tru
         a['body2'] = draw(st.sampled_from([b for b in bodies if b != b1]))
       else:
         cand = [g for g in geoms if g != a.get('geom1') and gbody(g) != a.get('body1')]
+        if 'ccd-concentric' in exclude:
+          # known finding C28:ccd-concentric (concentric convex geoms report distance 0): two geoms of one body are
+          # concentric whenever both are declared without pos -> same-body pairs excluded by construction
+          c2 = [g for g in cand if gbody(g) != b1]
+          info['excluded_same_body_pairs'] += len(cand) - len(c2)
+          cand = c2 or ['floor']
         if not cand:
           cand = [g for g in geoms if g != a.get('geom1')]
         a['geom2'] = draw(st.sampled_from(cand))
@@ -362,7 +374,7 @@ def sensor_models(draw, max_bodies=5, max_sensors=10, min_sensors=3, history=Tru
         return [g for g in geoms if g.startswith('g' + a[key_b][1:] + '_')]
       t1 = set(gtype.get(g) for g in gset('geom1', 'body1'))
       t2 = set(gtype.get(g) for g in gset('geom2', 'body2'))
-      if ('capsule' in t1 and 'box' in t2) or ('box' in t1 and 'capsule' in t2):
+      if 'capsulebox-distmax' in exclude and (('capsule' in t1 and 'box' in t2) or ('box' in t1 and 'capsule' in t2)):
         # known finding C28:capsulebox-distmax (capsule-box collider misses pairs with d^2 > distmax + sizes when
         # distmax > 1): excluded by construction by keeping the cutoff <= 1
         choices = [0.0, 0.05, 0.3, 1.0, 1.0]
@@ -378,7 +390,7 @@ def sensor_models(draw, max_bodies=5, max_sensors=10, min_sensors=3, history=Tru
     if history and el != 'user' and draw(st.integers(0, 7)) == 0:
       a['nsample'] = str(draw(st.integers(1, 4)))
       modes = ['history', 'delay', 'interval', 'delay+interval']
-      if rk4:
+      if rk4 and 'rk4-delay' in exclude:
         # known finding C28:rk4-delay (delay>0 samples are taken from the last RK stage): excluded by construction
         modes = ['history', 'interval']
         info['excluded_rk4_delay'] += 1
